@@ -106,7 +106,8 @@ def _shared_do(x, y):
 
 def meta(tier):
     return dict(bounds=dict(programs=len(PG.base_programs()) + 4, positions="every statement boundary (incl. before/after the units)", directives_per_program="1-2",
-                            kinds=KINDS, symbolic="identifier / file name / message word of the first directive: 3 characters [A-Za-z][A-Za-z0-9_]2"),
+                            kinds=KINDS, neighbours="comment line, blank + comment line, or trailing comment on the previous statement next to the directive (comments kept or ignored)",
+                            symbolic="identifier / file name / message word of the first directive: 1-3 characters [A-Za-z][A-Za-z0-9_]*, or 2 printable characters of free text (trailing text, quoted strings)"),
                 assumptions=["free form", "the symbolic identifier is a name (no ';', quotes or blanks)"],
                 budget_s=400, unit_budget_s=60, witness_every=10)
 
